@@ -98,6 +98,7 @@ type frame struct {
 }
 
 type state struct {
+	cvBinds []Val // bindings of the closure whose contract is being applied
 	u       *unit
 	vals    map[ssa.Value]Val
 	heaps   map[string]string
@@ -360,6 +361,26 @@ func (s *state) rawStoreBits(addr string, nbytes int64, v string) {
 		return
 	}
 	m := s.heap("M", "(_ BitVec 8)")
+	// name large operands and the resulting memory: terms are strings without sharing, and
+	// a read-modify-write sequence would otherwise grow them exponentially
+	if len(v) > 160 {
+		n := s.u.newSym("sv", fmt.Sprintf("(_ BitVec %d)", nbytes*8))
+		s.pc = append(s.pc, eq(n, v))
+		v = n
+	}
+	if len(addr) > 160 {
+		n := s.u.newSym("sa", "(_ BitVec 64)")
+		s.pc = append(s.pc, eq(n, addr))
+		addr = n
+	}
+	defer func() {
+		if cur := s.heaps["M"]; len(cur) > 1500 {
+			s.u.fresh++
+			n := s.u.declare(fmt.Sprintf("M@%d", s.u.fresh), "(Array (_ BitVec 64) (_ BitVec 8))")
+			s.pc = append(s.pc, eq(n, cur))
+			s.heaps["M"] = n
+		}
+	}()
 	for i := int64(0); i < nbytes; i++ {
 		b := v
 		if nbytes > 1 {
